@@ -177,6 +177,43 @@ def bytecode(ck, tier, seed):
     ck.sample({"file_bytes": len(files[0]["bytes"]), "mutants": sum(1 for c in out if c["id"] == files[0]["id"]), "first": out[0]["mut"]})
 
 
+LIMIT_SOURCES = [
+    "@ GET /a {\n  $ f = async {\n    $ i = 0\n    while true {\n      i = i + 1\n    }\n    > i\n  }\n  > 1\n}\n",
+    "@ GET /b {\n  $ f = async {\n    $ i = 0\n    while true {\n      i = i + 1\n    }\n    > i\n  }\n  > await f\n}\n",
+    "@ GET /c {\n  $ a = 1\n  $ b = 2\n  $ c = a + b\n  $ f = async {\n    $ g = async {\n      while true {\n        $ z = 1\n      }\n      > 0\n    }\n    > await g\n  }\n  $ d = c * 2\n  > d\n}\n",
+    "@ GET /d {\n  $ f = async {\n    while true {\n      $ z = 1\n    }\n    > 0\n  }\n  $ g = async {\n    while true {\n      $ z = 2\n    }\n    > 0\n  }\n  > 5\n}\n",
+]
+
+
+def limit_sweep(ck, tier, seed):
+    """non-terminating async blocks under every step limit 1..N: Execute returns and no goroutine is left spinning"""
+    work = vf.scratch("verif-c10-")
+    srcs = os.path.join(work, "lsrc.ndjson")
+    vf.write_ndjson(srcs, [{"id": i, "src": s} for i, s in enumerate(LIMIT_SOURCES)])
+    rc, txt = vf.go_test("cmd/glyph", ["harness_test.go", "robust_test.go"], run="TestVerifRobustEmit$", env={"VERIF_CASES": srcs, "VERIF_OUT": srcs + ".out"}, timeout=900)
+    emitted = [e for e in vf.read_ndjson(srcs + ".out") if "bytes" in e and e["level"] == 1]
+    if len(emitted) != len(LIMIT_SOURCES):
+        raise vf.InfraError("C10 limit sweep: emit failed rc=%s\n%s" % (rc, txt[-1500:]))
+    cp = os.path.join(work, "limit.ndjson")
+    vf.write_ndjson(cp, [{"cid": e["id"], "bytes": e["bytes"]} for e in emitted])
+    maxlimit = 80 if tier == "quick" else 400
+    rc, txt = vf.go_test("cmd/glyph", ["harness_test.go", "robust_test.go"], run="TestVerifRobustLimit$",
+                         env={"VERIF_CASES": cp, "VERIF_OUT": cp + ".out", "VERIF_MAXLIMIT": str(maxlimit)}, timeout=1800)
+    res = vf.read_ndjson(cp + ".out")
+    summ = [x for x in res if x.get("summary")]
+    if not summ:
+        raise vf.InfraError("C10 limit sweep driver failed rc=%s\n%s" % (rc, txt[-1500:]))
+    ck.cov["evaluations"] += summ[0]["cases"]
+    ck.cov["models"].append({"name": "step-limit-sweep", "programs": len(emitted), "limits": maxlimit, "runs": summ[0]["cases"]})
+    for x in res:
+        if x.get("summary"):
+            continue
+        what = "goroutine-left-spinning" if x["goroutines_left"] > 0 else x["run"]["kind"]
+        ck.mismatch("vm/step-limit/%s" % what, {"program": LIMIT_SOURCES[x["cid"]], "limit": x["limit"], "run": x["run"], "goroutines_left": x["goroutines_left"]},
+                    replay={"kind": "limit", "program": x["cid"], "limit": x["limit"]})
+        break
+
+
 def source(ck, tier, seed):
     quick = tier == "quick"
     progs = [p for p in langgen.control_table()[:6] + langgen.async_table()[:4] if not p["vars"]]
@@ -251,6 +288,7 @@ def run(ck, tier, seed):
         "source: the catalogue of SourceMut.tla (every truncation, 11 foreign bytes inserted at every position, 4 replacements and a doubling at every position of each base program; 11 nesting constructs at depths 10..10^6) is applied to parser-accepted programs; both lexers and the parser must end with a tree or a diagnostic within the same bounds. The specification does not decide which mutated sources are valid",
     ]
     bytecode(ck, tier, seed)
+    limit_sweep(ck, tier, seed)
     source(ck, tier, seed)
     ck.cov["rule"] = "reference decoder evaluated by TLC on compiler output x malformation catalogue; real decompiler and VM run on the same bytes; source malformation catalogue applied to accepted programs and fed to lexers+parser"
 
